@@ -302,6 +302,66 @@ def eval_degree_env(ctx, R):
     return True
 
 
+def eval_seed_env(ctx, R):
+    """`Cfg::propagate_degrees` (with its private helpers) by evaluation on a definition with two parameters and no
+    blocks, for each definition type: the environment handed to the blocks has been told, for exactly the declared
+    parameters, the range Constant..Linear (function) or Constant (template, custom template).  True when decided."""
+    import passeval
+    from passeval import O, Panic, Sink
+
+    try:
+        w = passeval.PassWorld([DM, CFG], CFG)
+    except Exception:  # noqa: BLE001
+        return False
+    w.lenient_opaque = True
+    if ("Cfg", "propagate_degrees") not in w.methods or "Cfg" not in w.structs:
+        return False
+    fn = w.methods[("Cfg", "propagate_degrees")][0]
+    w.consts["MAX_ANALYSIS_DURATION"] = {"k": "Lit", "lit": "int", "value": "10", "suffix": "", "line": 0}
+    bad = None
+    n = 0
+    try:
+        for dt in ("Function", "Template", "CustomTemplate"):
+            params = [O("parameter-a"), O("parameter-b")]
+            plist = ("O", "parameters", (("iter", ("PY", lambda: passeval.Iter(list(params)))), ("len", 2), ("is_empty", False)))
+            seeds = []
+
+            def new_env(_n, _a):
+                return ("O", "degree-environment", (("set_degree", ("PY", lambda v_, r_: (seeds.append((v_, r_)), True)[1])), ("set_type", ("PY", lambda *a_: ("T", ()))), ("degree", ("PY", lambda v_: NONE))))
+
+            w.opaque = (("DegreeEnvironment::new", new_env), ("Instant::now", lambda _n, _a: ("O", "instant", (("elapsed", 0),))), ("std::time::Instant::now", lambda _n, _a: ("O", "instant", (("elapsed", 0),))))
+            vals = {"name": "T", "constants": O("constants"), "parameters": plist, "declarations": O("declarations"), "basic_blocks": Sink(), "definition_type": E("DefinitionType", dt), "dominator_tree": O("dominator-tree")}
+            fields = w.structs["Cfg"]
+            if [f_ for f_ in fields if f_ not in vals]:
+                raise Unsupported("Cfg has fields the world does not know")
+            cfg = S("Cfg", *[vals[f_] for f_ in fields])
+            w.call_fn(fn, [cfg])
+            n += 1
+            want = (C, L) if dt == "Function" else (C, C)
+            got = []
+            for v_, r_ in seeds:
+                if isinstance(r_, tuple) and r_[0] == "S" and r_[1] == "DegreeRange":
+                    got.append((v_, (di(r_[2][0]), di(r_[2][1]))))
+                elif isinstance(r_, tuple) and r_[0] == "E" and r_[1] == "Degree":
+                    got.append((v_, (di(r_), di(r_))))
+                else:
+                    raise Unsupported("a seed range made some other way: %r" % (r_,))
+            if [v_ for v_, _r in got] != params:
+                bad = bad or "%s: degrees are seeded for %s, the declared parameters are a, b" % (dt, [v_[1] for v_, _r in got])
+            elif any(r_ != want for _v, r_ in got):
+                bad = bad or "%s: parameters are seeded with %s, expected %s..%s" % (dt, ["%s..%s" % (DEG[r_[0]], DEG[r_[1]]) for _v, r_ in got], DEG[want[0]], DEG[want[1]])
+    except Unsupported as u:
+        ctx.note("Cfg::propagate_degrees is outside the evaluator's subset (%s): shape obligations apply" % u)
+        return False
+    except Panic as p_:
+        ctx.bad(R, "Cfg::propagate_degrees/evaluated/no-panic", "panics: %s" % p_, CFG)
+        return True
+    finally:
+        w.opaque = ()
+    ctx.check(R, "Cfg::propagate_degrees/evaluated/parameter-seeds", bad is None, bad or "%d definition types: exactly the declared parameters are seeded, Constant..Linear for a function, Constant for a template" % n, CFG)
+    return True
+
+
 def rule_env(ctx):
     R = "C07.3"
     ctx.rule(R, "degree environment seeds: signals and components Linear, template parameters Constant, function parameters Constant..Linear; set_degree is called from nowhere else except the assignment rule")
@@ -312,8 +372,10 @@ def rule_env(ctx):
         sdf = find_fn(DMF, "set_degree", "DegreeEnvironment")
         ins = list(method_calls(sdf["body"], "insert")) if sdf else []
         ctx.check(R, "DegreeEnvironment/set_degree-records-the-given-range", len(ins) == 1 and not (conditions_to(sdf["body"], ins[0]) or []), "the insert must be unconditional", DMF)
-    seeds = list(method_calls(fn["body"], "set_degree"))
-    ctx.floor(R, "parameter-seeds", len(seeds), 1)
+    seeds_decided = eval_seed_env(ctx, R)
+    seeds = list(method_calls(fn["body"], "set_degree")) if not seeds_decided else []
+    if not seeds_decided:
+        ctx.floor(R, "parameter-seeds", len(seeds), 1)
     for s in seeds:
         le = let_env(fn["body"], s)
         # what is seeded: the declared parameters, i.e. the loop runs over the definition's parameter list itself (a
@@ -413,6 +475,17 @@ def rule_env(ctx):
                 if "degree_knowledge_mut" not in render(s["recv"]):
                     callers.append("%s::%s" % (q, fnn["name"]))
     allowed = {"Cfg::propagate_degrees", "Statement::propagate_degrees"}
+    if seeds_decided:
+        # a private helper of Cfg that only propagate_degrees calls is part of it (its seeds were evaluated with it)
+        from astlib import fns_in_file as _fif
+
+        for c_ in sorted(set(callers) - allowed):
+            if c_.startswith("Cfg::"):
+                hn = c_.split("::", 1)[1]
+                users = {f_["name"] for q_, f_ in _fif(CFG) if f_.get("body") and f_["name"] != hn and any(m_["k"] == "MethodCall" and m_["method"] == hn for m_ in walk(f_["body"]))}
+                priv = [f_ for q_, f_ in _fif(CFG) if f_["name"] == hn and f_.get("vis") != "pub"]
+                if priv and users <= {"propagate_degrees"}:
+                    allowed.add(c_)
     extra = sorted(set(callers) - allowed)
     ctx.check(R, "DegreeEnvironment::set_degree/who-may-call", not extra, "unexpected callers: %s" % extra)
 
